@@ -583,10 +583,11 @@ func (m *Mint) RequestMeltQuote(meltQuoteRequest nut05.PostMeltQuoteBolt11Reques
 	invoiceSatAmount := (uint64(bolt11.MSatoshi) + 999) / 1000
 	quoteAmount := invoiceSatAmount
 
-	// check if a mint quote exists with the same invoice.
-	_, err = m.db.GetMintQuoteByPaymentHash(bolt11.PaymentHash)
+	// check if a mint quote exists with the same invoice. The payment hash alone
+	// is not enough: anybody can encode a different invoice with that hash.
+	mintQuote, err := m.db.GetMintQuoteByPaymentHash(bolt11.PaymentHash)
 	isInternal := false
-	if err == nil {
+	if err == nil && mintQuote.PaymentRequest == request {
 		isInternal = true
 	}
 
@@ -829,7 +830,7 @@ func (m *Mint) MeltTokens(ctx context.Context, meltTokensRequest nut05.PostMeltB
 	// before asking backend to send payment, check if quotes can be settled
 	// internally (i.e mint and melt quotes exist with the same invoice)
 	mintQuote, err := m.db.GetMintQuoteByPaymentHash(meltQuote.PaymentHash)
-	if err == nil {
+	if err == nil && mintQuote.PaymentRequest == meltQuote.InvoiceRequest {
 		m.logDebugf("quotes '%v' and '%v' have same invoice so settling them internally", meltQuote.Id, mintQuote.Id)
 		meltQuote, err = m.settleQuotesInternally(mintQuote, meltQuote)
 		if err != nil {
